@@ -445,6 +445,39 @@ def explore_c13(rng, tier, res, deep=False):
             except Exception as exc:  # noqa: BLE001
                 res.violations.append({"property": "C13", "query": q, "document": v, "observed": "PY:" + type(exc).__name__ + ": " + str(exc)[:100],
                                        "expected": "result or JSONPathError", "what": "evaluation raised a non-JSONPath exception"})
+    # built-in function calls with arguments of every kind in every position (literals of each type, singular queries
+    # that select a string / number / boolean / null / array / object / nothing, nested calls), on children of every kind
+    kinds = ["ab", "a.*", "[", 1, 1.5, True, None, [], ["a"], {}, {"a": "ab"}]
+    kdocs = [[{"a": x, "b": y} for x in kinds] + [{"a": y}, {"b": y}, y] for y in kinds]
+    kdocs.append({"p": "a", "k": [{"a": "ab"}, {"a": 1}, {}]})
+    kdocs.append({"p": [], "k": {"x": {"a": "ab", "b": {}}}})
+    vargs = ["'ab'", "'a.*'", "'['", "1", "true", "null", "@", "@.a", "@.b", "@[0]", "$", "$.p", "$[0].a", "value(@.*)", "length(@.a)", "value($..p)"]
+    fq = []
+    for f in ("match", "search"):
+        for a1 in vargs:
+            for a2 in vargs:
+                fq.append(f"$[?{f}({a1}, {a2})]")
+        fq += [f"$..[?{f}(@.a, $.p)]", f"$.k[?!{f}(@.a, $.p)]", f"$[?{f}(@.a, @.b) || {f}(@.b, @.a)]"]
+    for a1 in vargs:
+        fq += [f"$[?length({a1}) == 1]", f"$[?length({a1}) == length(@.b)]"]
+    for a1 in ["@", "@.a", "@.*", "@..a", "$", "$.p", "$..*", "@[?@.a]"]:
+        fq += [f"$[?count({a1}) == 1]", f"$[?value({a1}) == 'ab']", f"$[?match(value({a1}), value({a1}))]"]
+    for q in fq:
+        try:
+            c = env.compile(q)
+        except jp.JSONPathError:
+            continue
+        for v in kdocs:
+            evals += 1
+            try:
+                c.find(v)
+            except jp.JSONPathError:
+                res.count("eval-jsonpath-error")
+            except Exception as exc:  # noqa: BLE001
+                res.violations.append({"property": "C13", "query": q, "document": v, "observed": "PY:" + type(exc).__name__ + ": " + str(exc)[:100],
+                                       "expected": "result or JSONPathError", "what": "evaluation raised a non-JSONPath exception"})
+                break
+    res.count("function-argument-matrix", len(fq))
     res.evaluations += evals
     res.count("evaluations-of-compiled", evals)
     # model vs real on evaluation outcomes for a sample (the model predicts PY:* classes too)
@@ -553,7 +586,85 @@ def explore_c19(rng, tier, res, deep=False):
         if o != f"{got[0]} {got[1]}":
             res.mismatches.append({"op": "position", "query": q, "offset": off, "model": o, "real": got})
     # offsets predicted by the model (class + offset) on the same strings
+    before = len(res.mismatches)
     compile_cases(res, FULL_ENV, qs[: (len(qs) if tier == "thorough" else 800)], "C19")
+    # where the real code reports another offset than the model, the property may still hold (any offset inside the text
+    # whose line/column is printed right satisfies it): search around those strings for one on which it does not —
+    # drop what follows the reported position, and repeat the characters before it (an offset computed in a rewritten
+    # copy of the text drifts with every character the rewrite inserts)
+    seeds = [m["query"] for m in res.mismatches[before:] if m.get("op") == "compile"][:40]
+    tried = 0
+    for q in seeds:
+        try:
+            env.compile(q)
+            continue
+        except jp.JSONPathError as exc:
+            off = getattr(getattr(exc, "token", None), "index", None)
+        except Exception:  # noqa: BLE001
+            continue
+        if off is None:
+            continue
+        cut = max(0, min(off, len(q)))
+        variants = set()
+        for j in range(cut, min(len(q), cut + 12) + 1):
+            variants.add(q[:j])
+            for tail in ("']", '"]', "]", "')]", ""):
+                variants.add(q[:j] + tail)
+        for i in range(max(0, cut - 12), min(len(q), cut + 1)):
+            for rep in (2, 4, 8):
+                v = q[:i] + q[i] * rep + q[i + 1 :]
+                variants.add(v)
+                variants.add(v[: cut + rep + 2] + "']")
+                variants.add(v[: cut + rep + 2] + '"]')
+        # the string literal around the reported position, in either quote style, with the other quote character (which
+        # the decoder may escape in a rewritten copy) repeated in front of what it contains
+        opens = [i for i in range(min(cut, len(q) - 1), -1, -1) if q[i] in "'\""]
+        if opens:
+            i = opens[0]
+            j = q.find(q[i], max(cut, i + 1))
+            if j < 0:
+                j = len(q)
+            body = q[i + 1 : j]
+            for style in "'\"":
+                other = '"' if style == "'" else "'"
+                for k in (0, 1, 2, 3, 4, 8):
+                    lit = style + other * k + body + style
+                    variants.add(q[:i] + lit + "]")
+                    variants.add(q[:i] + lit + q[j + 1 :])
+                    variants.add("$[" + lit + "]")
+        for v in sorted(variants):
+            tried += 1
+            bad = judge_c19(env, jp, v)
+            if bad:
+                res.violations.append(dict(bad, found_by="search around a string on which model and code report different offsets: " + repr(q)[:120]))
+                break
+    if seeds:
+        res.count("offset-mismatch-guided-variants", tried)
+
+
+def judge_c19(env, jp, q):
+    try:
+        env.compile(q)
+        return None
+    except jp.JSONPathError as exc:
+        tok = getattr(exc, "token", None)
+        msg = str(exc)
+        if tok is None:
+            return {"property": "C19", "query": q, "observed": "no token on " + type(exc).__name__, "expected": "an offset", "what": "error without position"}
+        off = tok.index
+        if not (0 <= off <= len(q)):
+            return {"property": "C19", "query": q, "observed": off, "expected": f"0..{len(q)}", "what": "error offset outside the query text"}
+        m = re.search(r", line (-?\d+), column (-?\d+)$", msg)
+        if not m:
+            return {"property": "C19", "query": q, "observed": msg[-60:], "expected": "'..., line L, column C'", "what": "message has no position suffix"}
+        got = (int(m.group(1)), int(m.group(2)))
+        want = line_col(q, off)
+        if got != want:
+            return {"property": "C19", "query": q, "observed": {"offset": off, "printed": got}, "expected": {"line_col": want},
+                    "what": "printed line/column is not the position of the offset"}
+        return None
+    except Exception as exc:  # noqa: BLE001
+        return {"property": "C13", "query": q, "observed": "PY:" + type(exc).__name__, "expected": "JSONPathError", "what": "non-JSONPath exception"}
 
 
 # ---------------------------------------------------------------------------------------------
@@ -702,6 +813,20 @@ def literal_pool(rng, tier):
                "\\uD800", "\\uDBFF", "\\uDC00", "\\uDFFF", "\\uD800\\u0041", "\\uD800\\uD800", "\\uDC00\\uD800", "\\uD800\\uDBFF",
                "\\uD800\\uE000", "\\uD800x", "\\uD800\\", "\\uD800\\u", "\\uD800\\uDC0", "\\", "\\\\\\", "a\\", "\\u00e9\\u00E9",
                "\\ud83d\\ude00", "\\uD83D\\uDE00", "\\uDBFF\\uDFFF", "\\uD800\\uDC00", "\\uDBFF\\uDC00", "\\uD800\\uDFFF"]
+    # \u followed by four characters that are not all HEXDIG but that a lenient integer parser would take: base
+    # prefixes, signs, blanks, digit separators, non-ASCII decimal digits (fullwidth, Arabic-Indic, Devanagari ...),
+    # letters just outside a-f, and the same inside a surrogate pair's second half
+    odd = ["0x41", "0X41", "0o41", "0b11", "+041", "-041", " 041", "041 ", "\t041", "00_1", "0_41", "_041", "041_", "004g", "004G",
+           "zzzz", "00:1", "0.41", "1e10", "\uff10\uff10\uff14\uff11", "\u0660\u0660\u0664\u0661", "\u0966\u0966\u096a\u0967",
+           "\U0001d7ce\U0001d7ce\U0001d7d2\U0001d7cf", "00\uff14\uff11", "\u00b2\u00b2\u00b2\u00b2", "\u2460\u2460\u2460\u2460",
+           "004\u0661", "\uff21\uff22\uff23\uff24", "ａｂｃｄ", "00\u00e91", "0041"]
+    for o in odd:
+        bodies.append("\\u" + o)
+        bodies.append("\\uD83D\\u" + o)
+        bodies.append("a\\u" + o + "b")
+    for _ in range(400 if tier == "thorough" else 40):
+        quad = "".join(rng.choice("0123456789abcdefABCDEF" * 3 + "gGxX+- _.:\uff11\u0661\u0967é") for _ in range(4))
+        bodies.append("\\u" + quad)
     # boundary surrogate pairs and sampled interior pairs
     for _ in range(4000 if tier == "thorough" else 60):
         hi = rng.randint(0xD800, 0xDBFF)
